@@ -2,6 +2,7 @@ import BoolFn.Props.C04
 import BoolFn.Proofs.Support
 import BoolFn.Proofs.IndexOf
 import BoolFn.Proofs.Quant
+import BoolFn.Proofs.Essential
 /-! # C09 — Declared and essential inputs are reported exactly
 
 The essential inputs of a function are exactly those variables for which some assignment exists
@@ -145,8 +146,25 @@ theorem bdd_essential_ok (b : Bdd α) (h : b.WF) :
     obtain ⟨i, _, hi⟩ := hu
     exact List.mem_of_getElem? hi
 
-/-! ### tables: subset and degrees (the bit-scan ↔ semantics equivalence is checked by the
-    correspondence; its Lean proof against `Nat.testBit` is not part of this file yet) -/
+/-! ### tables: the bit scan of `TruthTable::essential_inputs` (row `r` against row `r ^ (1 << shift)`)
+    finds exactly the inputs that matter; subset and degrees -/
+theorem table_essential_iff (t : Table α) (h : t.WF) (u : α) :
+    u ∈ t.essentialInputs ↔ Essential (fun ρ => t.den ρ) u :=
+  Table.essentialInputs_iff t h u
+
+/-- tables and expressions of the same function report the same essential inputs, whatever either
+    merely declares -/
+theorem table_expr_same_essentials (t : Table α) (h : t.WF) (e : Expr α) (hd : ∀ ρ, t.den ρ = e.den ρ) (u : α) :
+    u ∈ t.essentialInputs ↔ u ∈ e.essentialInputs := by
+  rw [table_essential_iff t h, expr_essential_iff]
+  simp only [Essential, hd]
+
+/-- … and so do diagrams and expressions -/
+theorem bdd_expr_same_essentials (b : Bdd α) (h : b.WF) (e : Expr α) (hd : ∀ ρ, b.den ρ = e.den ρ) (u : α) :
+    (∃ i, i ∈ b.inner.supportSet ∧ b.inputs[i]? = some u) ↔ u ∈ e.essentialInputs := by
+  rw [bdd_essential_iff b h, expr_essential_iff]
+  simp only [Essential, hd]
+
 theorem table_subset_inputs (t : Table α) : ∀ u ∈ t.essentialInputs, u ∈ t.inputs := by
   intro u hu
   simp only [Table.essentialInputs, mem_sortDedup, List.mem_map, List.mem_filter] at hu
@@ -167,5 +185,8 @@ theorem same_function_same_essentials (e e' : Expr α) (h : ∀ ρ, e.den ρ = e
 
 /-- non-vacuity: `(a & b) | (c & !c)` declares c but depends on a and b only -/
 example : (Expr.or [.and [.lit 1, .lit 2], .and [.lit 3, .not (.lit 3)]] : Expr Nat).essentialInputs = [1, 2] := by decide
+/-- a table over (1, 2, 3) that ignores 2 -/
+example : (⟨[1, 2, 3], [false, true, false, true, true, false, true, false]⟩ : Table Nat).essentialInputs = [1, 3] := by
+  decide
 
 end BoolFn.C09
